@@ -348,8 +348,13 @@ func tableJob(raw json.RawMessage) (any, error) {
 				if it.Mode == "C02" {
 					e = ExpectFor(t, path)
 				}
-				for _, m := range methods {
+				for mi, m := range methods {
 					q := hv.Req{Method: m, Path: path}
+					if wit[path] && mi%2 == 1 {
+						// what a server hands over for a non-canonically escaped target: Path decoded, RawPath as sent.
+						// The request path is URL.Path; the answer must not depend on RawPath.
+						q.RawPath = escapeAll(path)
+					}
 					o := hv.Serve(r, q)
 					out.Probes++
 					outc[fmt.Sprintf("%d/%s/%s/%d", o.Status, o.Kind, o.Pattern, len(o.Params))] = struct{}{}
@@ -402,6 +407,19 @@ func tableJob(raw json.RawMessage) (any, error) {
 	}
 	out.Outcomes = keys(outc)
 	return out, nil
+}
+
+// escapeAll percent-encodes every byte after the leading slash ("/a/1" -> "/%61%2F%31").
+func escapeAll(p string) string {
+	var b strings.Builder
+	for i := 0; i < len(p); i++ {
+		if i == 0 && p[i] == '/' {
+			b.WriteByte('/')
+			continue
+		}
+		fmt.Fprintf(&b, "%%%02X", p[i])
+	}
+	return b.String()
 }
 
 func containsInt(l []int, x int) bool {
@@ -508,7 +526,9 @@ func c01Alphabet() []Op {
 	for _, p := range c01HistPool {
 		ops = append(ops, Op{K: "remove", P: p})
 	}
-	ops = append(ops, Op{K: "remove", P: "/a/{x}", Ms: []string{"GET"}}, Op{K: "clean"}, Op{K: "pclean", P: "/a/{x}/"}, Op{K: "pclean", P: "/a/"})
+	ops = append(ops, Op{K: "remove", P: "/a/{x}", Ms: []string{"GET"}}, Op{K: "clean"}, Op{K: "pclean", P: "/a/{x}/"}, Op{K: "pclean", P: "/a/"},
+		// rejected registrations leave handler-less nodes behind: they must stay invisible
+		Op{K: "reject", P: "/a/{x}/q", Ms: []string{"get"}}, Op{K: "reject", P: "/a/{x}/{y}/zz", Ms: []string{"PATCH", "BOGUS"}}, Op{K: "reject", P: "/a/bq", Ms: []string{"GET", "GET"}})
 	return ops
 }
 
@@ -553,7 +573,9 @@ func c01Expand(raw json.RawMessage) (any, error) {
 			all = append(all, ref.MustParse(p, Interceptors(cfg.Router.IC)))
 		}
 		_ = ps
-		for _, path := range probeSet(all, 3) {
+		probes := probeSet(all, 3)
+		probes = append(probes, "/a/1/q", "/a/1/2/zz", "/a/bq", "/a/1/q/", "/a/1/2/zz/c")
+		for _, path := range probes {
 			for _, m := range []string{"GET", "POST"} {
 				q := hv.Req{Method: m, Path: path}
 				o := hv.Serve(r, q)
